@@ -123,7 +123,8 @@ func (op I2rw) Op_instruction_verilog_state_machine(conf *Config, arch *Arch, rg
 			for j := 0; j < int(arch.N); j++ {
 				result += "							" + strings.ToUpper(Get_input_name(j)) + " : begin\n"
 
-				result += pref + "\t\tif (" + strings.ToLower(Get_input_name(j)) + "_valid)\n"
+				// take the value only if the previous transfer on this input is over (recv low again)
+				result += pref + "\t\tif (" + strings.ToLower(Get_input_name(j)) + "_valid && !" + strings.ToLower(Get_input_name(j)) + "_recv)\n"
 				result += pref + "\t\tbegin\n"
 				result += pref + "\t\t\t_" + strings.ToLower(Get_register_name(i)) + " <= #1 " + strings.ToLower(Get_input_name(j)) + ";\n"
 				result += pref + NextInstruction(conf, arch, 3, "_pc + 1'b1")
@@ -211,6 +212,10 @@ func (op I2rw) Simulate(vm *VM, instr string) error {
 	reg := get_id(instr[:regBits])
 	inp := get_id(instr[regBits : int(regBits)+inBits])
 	// fmt.Println("Entering I2RW", vm.InputsValid[inp], vm.InputsRecv[inp])
+	if vm.InputsValid[inp] && vm.InputsRecv[inp] {
+		// the previous transfer on this input is not over yet (valid still high): wait
+		return nil
+	}
 	if vm.InputsValid[inp] {
 		vm.Registers[reg] = vm.Inputs[inp]
 		vm.InputsRecv[inp] = true
